@@ -38,11 +38,11 @@ theorem rcpt_bound_reach (e : Env) (s : Sess) (g : List Addr.Recipient) (s' : Se
 /-- … so no data phase of any connection ever delivers to more than the configured maximum -/
 theorem rcpt_bound (e : Env) (b : Option Nat) (w : Bytes) :
     RcptBound e (run e b w).2.1 ∧ ∀ ph ∈ runPhases e b w, (ph.sess.rcpts.length : Int) ≤ max 0 e.maxRcpt := by
-  have h0 : RcptBound e (start b) := by
+  have h0 : RcptBound e (start e b) := by
     have h0 : ((0 : Nat) : Int) ≤ max 0 e.maxRcpt := by omega
-    simpa [RcptBound, start, init] using h0
+    simpa [RcptBound, start, init, initFor] using h0
   constructor
-  · obtain ⟨s1, g1, hr, hf⟩ := loop_final_reach e (w.length + 2) (start b) [] w [.reply [220]]
+  · obtain ⟨s1, g1, hr, hf⟩ := loop_final_reach e (w.length + 2) (start e b) [] w [.reply [220]]
     have := rcpt_bound_reach e _ _ _ _ h0 hr
     rw [run_eq]
     rcases hf with hf | hf <;> rw [hf]
